@@ -126,6 +126,9 @@ func (x *Exec) assumeLeafFacts(st *State, tm Term, l Leaf, full bool) {
 	switch l.Sub {
 	case "off", "len", "cap", "ptr":
 		st.assume(Ge(tm, TZero))
+		if full && l.Sub != "ptr" {
+			st.assume(Le(tm, BigLit("9223372036854775807")))
+		}
 		return
 	case "tag", "data":
 		st.assume(Ge(tm, TZero))
